@@ -235,6 +235,30 @@ def run_case(case, rec, mon=None):
                 rec.violation({"what": "mel(1000 Hz) = %r, published scale has 1000 Hz = 1000 mel" % v, "check": "anchor", "cls": name,
                                "params": params, "arg": 1000.0, "case": case})
         rec.sample({"kind": kind, "cls": name, "params": params, "first_probes_hz": [float(x) for x in fs[:4]], "n_probes": int(len(fs))})
+    elif kind == "mutate":
+        # low_hz / slope_hz are documented public attributes: both directions must follow a later assignment
+        from pydrobert.speech import scales as S
+
+        rng = rng_for(case["seed"], "C19", case["idx"])
+        for _ in range(case["n"]):
+            if rng.random() < 0.5:
+                sc = S.OctaveScaling(float(rng.uniform(5, 200)))
+                new = {"low_hz": float(rng.uniform(5, 200))}
+            else:
+                sc = S.LinearScaling(float(rng.uniform(-100, 100)), float(np.exp(rng.uniform(-2, 2))))
+                new = {"low_hz": float(rng.uniform(-100, 100)), "slope_hz": float(np.exp(rng.uniform(-2, 2)))}
+            f0 = float(rng.uniform(250, 4000))
+            sc.scale_to_hertz(sc.hertz_to_scale(f0))
+            for k, v in new.items():
+                setattr(sc, k, v)
+            rec.count("instances_reparametrised_after_construction")
+            for f in (f0, float(rng.uniform(250, 4000)), max(new["low_hz"], 250.0)):
+                s_ = sc.hertz_to_scale(f)
+                f2 = sc.scale_to_hertz(s_)
+                if not abs(float(f2) - f) <= RT * max(1.0, abs(f)):
+                    rec.violation({"what": "%s after assigning %r: scale_to_hertz(hertz_to_scale(%r)) = %r" % (type(sc).__name__, new, f, float(f2)), "check": "roundtrip_fsf",
+                                   "cls": type(sc).__name__, "params": new, "arg": f, "case": case})
+        rec.sample({"kind": kind, "n": case["n"]})
     elif kind == "octave_reject":
         from pydrobert.speech.scales import OctaveScaling
 
@@ -293,6 +317,9 @@ def _cases(tier, seed):
         for name, params in cfgs:
             cases.append({"kind": "grid", "cls": name, "params": params, "n": n, "seed": seed, "idx": idx, "np_scalar": bool(rep % 2)})
             idx += 1
+    for k in range(2 if tier == "quick" else 16):
+        cases.append({"kind": "mutate", "n": 40, "seed": seed, "idx": idx})
+        idx += 1
     cases.append({"kind": "octave_reject", "bad": [0, 0.0, -0.0, -1, -1e-300, -20.0, -1e9], "good": [1e-300, 1e-3, 1.0, 20.0, 4000.0], "seed": seed, "idx": idx})
     idx += 1
     for k in range(2 if tier == "quick" else 16):
@@ -325,7 +352,7 @@ def run_shard(spec, rec):
 def finish(rec):
     monitor.require(rec, [c + "." + m for c in ("MelScaling", "BarkScaling", "LinearScaling", "OctaveScaling")
                           for m in ("hertz_to_scale", "scale_to_hertz")])
-    for k in ("roundtrips_f_s_f", "roundtrips_s_f_s", "continuity_probes", "trace_pairs_checked_monotone", "banks_constructed"):
+    for k in ("roundtrips_f_s_f", "roundtrips_s_f_s", "continuity_probes", "trace_pairs_checked_monotone", "banks_constructed", "instances_reparametrised_after_construction"):
         if not rec.counters[k]:
             rec.inconc("check %s never ran" % k)
 
